@@ -90,7 +90,7 @@ NoCrash == [gate |-> "", occ |-> 0, when |-> ""]
 NoPlan == [faults |-> <<>>, crash |-> NoCrash]
 NdInit == [up |-> TRUE, epoch |-> 1, mem |-> <<>>, reg |-> {}, disk |-> <<>>, timers |-> {}, notif |-> {}, wconf |-> {}, wcsv |-> {},
            senders |-> {}, spentout |-> {}, suspfile |-> FALSE, sentn |-> <<>>, nsteps |-> 0, nfaults |-> 0, ncrashes |-> 0,
-           nswaps |-> 0, opens |-> <<>>, q |-> <<>>, peerinv |-> <<>>, keyn |-> 0, ptx |-> 0, ptxs |-> <<>>, phase |-> "idle", poll |-> FALSE,
+           nswaps |-> 0, opens |-> <<>>, q |-> <<>>, peerinv |-> <<>>, keyn |-> 0, ptx |-> 0, ptxs |-> <<>>, ver |-> "current", unrecovered |-> FALSE, phase |-> "idle", poll |-> FALSE,
            occ |-> <<>>, plan |-> NoPlan, res |-> "ok", recover |-> FALSE, nrestarts |-> 0, a |-> ""]
 
 Ctx(n, plan) == [nd |-> n, evs |-> <<>>, occ |-> <<>>, plan |-> plan, crashed |-> FALSE, go |-> "", sid |-> "none", out |-> "", res |-> "ok", done |-> FALSE]
@@ -329,9 +329,9 @@ PayLoop(x, k) ==
      IN IF g3.crashed THEN g3 ELSE IF oc = "" THEN Succ(SetD(g3, [d EXCEPT !.preimage = TRUE])) ELSE PayLoop(g3, k + 1)
 
 ActValidateTxAndPay(x) ==
+  IF D(x).preimage THEN Succ(x) ELSE     \* already paid (restart after the payment result was stored): go on claiming, whatever fails now
   LET d == D(x)  g == Gate(x, "validate") IN IF g.crashed THEN g ELSE IF g.go # "" THEN Fail(g, "validator") ELSE
   IF ~TxValidFor(d) THEN Fail(g, "tx is not valid") ELSE
-  IF d.preimage THEN Succ(g) ELSE     \* already paid (restart after the payment result was stored)
   IF DChain(d) = "lbtc" /\ DVer(d) # 7 THEN
      (LET r == Gate(g, "ln.recover") IN IF r.crashed THEN r ELSE
       IF r.go # "" \/ PayStatus(r, d.sid) # "succeeded" THEN Fail(r, "recover legacy claim payment") ELSE Succ(SetD(r, [d EXCEPT !.preimage = TRUE])))
@@ -444,7 +444,10 @@ Unreg(x) == IF ~x.crashed /\ x.done THEN [x EXCEPT !.nd.reg = @ \ {x.sid}] ELSE 
 WithSid(x, s) == [x EXCEPT !.sid = s, !.done = FALSE]
 
 \* lockSwap: one active swap per channel, whichever separator the channel id is written with
-LockConflict(x, scid) == \E s \in x.nd.reg : NScid(DScid(x.nd.mem[s])) = NScid(scid)
+\* ... and swaps that are stored, unfinished and not yet restored occupy their channel too (requests can arrive before RecoverSwaps)
+LockConflictFor(x, sid, scid) ==
+  \/ \E s \in x.nd.reg : NScid(DScid(x.nd.mem[s])) = NScid(scid)
+  \/ \E s \in DOMAIN x.nd.disk : s # sid /\ x.nd.disk[s].cur \notin Terminal /\ x.nd.disk[s].cur # "" /\ NScid(DScid(x.nd.disk[s])) = NScid(scid)
 Lock(x, sid, data) == [x EXCEPT !.nd.reg = @ \cup {sid}, !.nd.mem = Put(@, sid, data), !.sid = sid, !.done = FALSE]
 
 (* ------------------------------------------------ service handlers (service.go) -- *)
@@ -470,7 +473,7 @@ OnRequest(x, c, from, sid) ==
              ELSE LET g1 == Gate(x, "ln.receivable") IN IF g1.crashed \/ g1.go # "" THEN g1 ELSE
                   IF Cfg.receivable_msat < amt * 1000 THEN [g1 EXCEPT !.go = "low"] ELSE g1
   IN IF pre.crashed THEN pre ELSE IF pre.go # "" THEN cancel(pre) ELSE
-  IF LockConflict(pre, c.req.scid) THEN cancel(pre) ELSE
+  IF LockConflictFor(pre, sid, c.req.scid) THEN cancel(pre) ELSE
   LET role == IF c.kind = "swap_in_request" THEN "in_receiver" ELSE "out_receiver"
       l == Lock(BumpKey(pre), sid, Fresh(pre, role, from, sid))
       ev == IF c.kind = "swap_in_request" THEN "Event_SwapInReceiver_OnRequestReceived" ELSE "Event_OnSwapOutRequestReceived"
@@ -483,17 +486,17 @@ OnPeerMessage(x, c, from, sid) ==
   ELSE IF x.nd.mem[sid].peer # from THEN [x EXCEPT !.res = "err:unexpected_peer"]
   ELSE Unreg(SendEvent(WithSid(x, sid), EvOfKind(c.kind), c))
 
-LocalInit(x, a, scid, sid) ==
+LocalInit(x, a, scid, sid, limppm) ==
   IF ~o.allowNew THEN [x EXCEPT !.res = "err:disabled"]
   ELSE IF o.susp \/ x.nd.suspfile THEN [x EXCEPT !.res = "err:suspicious"]
   ELSE
   LET g1 == Gate(x, "ln.canspend") IN IF g1.crashed THEN g1 ELSE IF g1.go # "" THEN [g1 EXCEPT !.res = "err:other"] ELSE
   LET g2 == Gate(g1, IF a = "swapout" THEN "ln.spendable" ELSE "ln.receivable") IN IF g2.crashed THEN g2 ELSE IF g2.go # "" THEN [g2 EXCEPT !.res = "err:other"] ELSE
   LET g3 == IF a = "swapin" THEN Gate(Gate(g2, "wallet.balance"), "wallet.fee") ELSE g2 IN IF g3.crashed THEN g3 ELSE IF g3.go # "" THEN [g3 EXCEPT !.res = "err:other"] ELSE
-  IF LockConflict(g3, scid) THEN [g3 EXCEPT !.res = "err:active_swap"] ELSE
+  IF LockConflictFor(g3, sid, scid) THEN [g3 EXCEPT !.res = "err:active_swap"] ELSE
   LET role == IF a = "swapout" THEN "out_sender" ELSE "in_sender"
       l == Lock(BumpKey(g3), sid, Fresh(g3, role, "peer", sid))
-      req == [ver |-> 7, chain |-> CHAIN, assetcls |-> "own", scid |-> scid, amount |-> AMOUNT, limit |-> Compute(AMOUNT, 20000), pub |-> "good"]
+      req == [ver |-> 7, chain |-> CHAIN, assetcls |-> "own", scid |-> scid, amount |-> AMOUNT, limit |-> Compute(AMOUNT, limppm), pub |-> "good"]
       c == [kind |-> IF a = "swapout" THEN "swap_out_request" ELSE "swap_in_request", req |-> req, pubkey |-> "good", scidok |-> TRUE]
   IN Unreg(SendEvent(l, IF a = "swapout" THEN "Event_OnSwapOutStarted" ELSE "Event_SwapInSender_OnSwapInRequested", c))
 
@@ -518,7 +521,7 @@ DrainQ(x, fuel) ==
 \* Recover (fsm.go) for every unfinished record (RecoverSwaps)
 RecoverOne(x, sid) ==
   LET d == x.nd.disk[sid] IN
-  IF d.cur \in Terminal \/ LockConflict(x, DScid(d)) THEN x ELSE
+  IF d.cur \in Terminal \/ LockConflictFor(x, sid, DScid(d)) THEN x ELSE
   LET l == Lock(x, sid, d) IN
   IF <<d.role, d.cur>> \in FailOnRecover THEN Unreg(SendEvent(l, "Event_ActionFailed", None)) ELSE
   LET acts == Get(ActionTable, <<d.role, d.cur>>, <<>>) IN
@@ -538,7 +541,9 @@ OutGood(oo) == oo.amt = "exact" /\ oo.script = "good" /\ oo.asset = "policy" /\ 
 AmtOf(c) == IF c = "belowmin" THEN 99999 ELSE IF c = "min" THEN 100000 ELSE AMOUNT
 LimitOf(c, amt) == CASE c \in {"", "ok"} -> amt [] c = "zero" -> 0 [] c = "neg" -> -1 [] c = "exact" -> Compute(amt, RATE)
                      [] c = "low" -> Compute(amt, RATE) - 1 [] OTHER -> amt
-PremOf(c, amt, lim) == CASE c \in {"", "zero"} -> 0 [] c = "small" -> 100 [] c = "limit" -> lim [] c = "over" -> lim + 1 [] c = "neg" -> -1000 [] OTHER -> 0
+\* "huge" stands for a premium near MaxInt64 (the harness sends MaxInt64; TLC integers are 32-bit, the model only needs "far above any limit")
+PremOf(c, amt, lim) == CASE c \in {"", "zero"} -> 0 [] c = "small" -> 100 [] c = "limit" -> lim [] c = "over" -> lim + 1 [] c = "neg" -> -1000
+                         [] c = "huge" -> 1000000000 [] OTHER -> 0
 
 KnownData(n, sid) == IF sid \in DOMAIN n.mem THEN n.mem[sid] ELSE IF sid \in DOMAIN n.disk THEN n.disk[sid] ELSE None
 
@@ -562,7 +567,7 @@ CtxOfMsg(n, m, sid) ==
     [] m.kind = "swap_in_agreement" -> [kind |-> m.kind, pubkey |-> pk, agr |-> [premium |-> PremOf(m.premium, amt, lim), pub |-> pk]]
     [] m.kind = "opening_tx_broadcasted" /\ <<sid, m.from, m.v>> \in DOMAIN n.ptxs -> n.ptxs[<<sid, m.from, m.v>>]   \* re-announcement of the same transaction and invoice
     [] m.kind = "opening_tx_broadcasted" ->
-         LET claim == IF IsNone(kd) THEN AMOUNT ELSE DClaimSat(kd)
+         LET claim == IF IsNone(kd) \/ DClaimSat(kd) > 2000000 \/ DClaimSat(kd) < 0 THEN AMOUNT ELSE DClaimSat(kd)   \* (32-bit guard for the "huge" premium class)
              chain == IF IsNone(kd) \/ DChain(kd) = "" THEN CHAIN ELSE DChain(kd)
              cltv == IF m.inv_cltv = 0 THEN (IF chain = "btc" THEN 503 ELSE 29) ELSE m.inv_cltv
              tx == "txP-" \o sid \o "-" \o m.from \o m.v
@@ -591,8 +596,8 @@ OpenShapes == {[BlankMsg EXCEPT !.kind = "opening_tx_broadcasted", !.v = "good"]
 \* messages the counterparty of swap s may send (honest and dishonest variants)
 PeerMsgs(n, s) ==
   LET r == RoleOf(n, s)  M(m) == [m EXCEPT !.sid = s] IN
-  (IF r = "out_sender" THEN {M([BlankMsg EXCEPT !.kind = "swap_out_agreement", !.premium = p, !.v = v]) : p \in {"small", "over"}, v \in {"", "fee_high"}} ELSE {})
-  \cup (IF r = "in_sender" THEN {M([BlankMsg EXCEPT !.kind = "swap_in_agreement", !.premium = p]) : p \in {"small", "over"}} ELSE {})
+  (IF r = "out_sender" THEN {M([BlankMsg EXCEPT !.kind = "swap_out_agreement", !.premium = p, !.v = v]) : p \in (IF cf.neglimit THEN {"small", "over", "huge", "neg"} ELSE {"small", "over"}), v \in {"", "fee_high"}} ELSE {})
+  \cup (IF r = "in_sender" THEN {M([BlankMsg EXCEPT !.kind = "swap_in_agreement", !.premium = p]) : p \in (IF cf.neglimit THEN {"small", "over", "huge", "neg"} ELSE {"small", "over"})} ELSE {})
   \cup (IF r \in Takers THEN {M(m) : m \in OpenShapes} ELSE {})
   \cup (IF r \in Makers THEN {M([BlankMsg EXCEPT !.kind = "coop_close", !.v = v]) : v \in {"", "wrongkey", "malformed"}} ELSE {})
   \cup {M([BlankMsg EXCEPT !.kind = "cancel"])}
@@ -658,16 +663,18 @@ Commit(x, pre, a, plan, sch) ==
      /\ sched' = Append(sched, sch) /\ UNCHANGED cf
 
 Idle == nd.phase = "idle" /\ nd.nsteps < MAXSTEPS
+Settled == ~nd.unrecovered   \* between Start() and RecoverSwaps() only messages arrive
 
 DoLocal ==
-  /\ Idle /\ nd.up /\ nd.nswaps < MAXSWAPS
-  /\ \E a \in (INITS \cap {"swapout", "swapin"}), scid \in (IF ADVERSARY THEN {"100x1x1", "100:1:1"} ELSE {"100x1x1"}), plan \in Plans(nd) :
+  /\ Idle /\ Settled /\ nd.up /\ nd.nswaps < MAXSWAPS
+  /\ \E a \in (INITS \cap {"swapout", "swapin"}), scid \in (IF ADVERSARY THEN {"100x1x1", "100:1:1"} ELSE {"100x1x1"}), plan \in Plans(nd),
+        lim \in (IF cf.neglimit THEN {20000, -1000} ELSE {20000}) :
        /\ PlanOK(plan)
        /\ LET sid == NewLabel(nd)
-              x == LocalInit(Ctx([nd EXCEPT !.nswaps = @ + 1], plan), a, scid, sid)
+              x == LocalInit(Ctx([nd EXCEPT !.nswaps = @ + 1], plan), a, scid, sid, lim)
               dr == DriveEv(a, [chain |-> CHAIN, scid |-> scid, to |-> "peer", amount |-> AMOUNT], plan)
           IN /\ PlanHit(plan, x.occ)
-             /\ Commit(x, <<dr>>, a, plan, StepRec(a, [chain |-> CHAIN, scid |-> scid, amt |-> "typ", limit |-> 20000], plan))
+             /\ Commit(x, <<dr>>, a, plan, StepRec(a, [chain |-> CHAIN, scid |-> scid, amt |-> "typ", limit |-> lim], plan))
 
 DoMsg ==
   /\ Idle /\ nd.up
@@ -692,7 +699,7 @@ Mempool == {t \in DOMAIN o.tx : o.tx[t].conf = 0}
 HeightMatters == nd.wconf # {} \/ nd.wcsv # {} \/ Mempool # {}
                  \/ \E s \in Labels(nd) : LET kd == KnownData(nd, s) IN kd.role \in Takers /\ kd.cur \notin Terminal /\ (kd.start > 0 \/ kd.start_set)
 DoBlock ==
-  /\ Idle /\ HeightMatters
+  /\ Idle /\ Settled /\ HeightMatters
   /\ \E n \in BlockSizes, incl \in BOOLEAN, plan \in Plans(nd) :
        /\ (incl => Mempool # {}) /\ PlanOK(plan) /\ (plan # NoPlan => nd.up /\ (nd.wconf # {} \/ nd.wcsv # {}))
        /\ LET tip == o.tip[CHAIN] + n
@@ -705,7 +712,7 @@ DoBlock ==
 Payable == {<<s, "fee">> : s \in {t \in Labels(nd) : LET kd == KnownData(nd, t) IN kd.role = "out_receiver" /\ ~IsNone(kd.out_agr)}}
            \cup {<<s, "claim">> : s \in {t \in Labels(nd) : LET kd == KnownData(nd, t) IN kd.role \in Makers /\ ~IsNone(kd.otb)}}
 DoPay ==
-  /\ Idle
+  /\ Idle /\ Settled
   /\ \E p \in (Payable \ o.paidin), plan \in Plans(nd) :
        /\ PlanOK(plan) /\ (plan # NoPlan => nd.up /\ \E nt \in nd.notif : nt.sid = p[1] /\ nt.kind = p[2])
        /\ LET due == {nt \in nd.notif : nt.sid = p[1] /\ nt.kind = p[2]}
@@ -715,7 +722,7 @@ DoPay ==
                     StepRec("pay", [sid |-> p[1], kind |-> p[2]], plan))
 
 DoHtlc ==
-  /\ Idle
+  /\ Idle /\ Settled
   /\ \E s \in DOMAIN o.claim, r \in {"settle", "fail"} :
        /\ o.claim[s].status = "inflight"
        /\ Commit(Ctx(nd, NoPlan), <<DriveEv("htlc", [sid |-> s, kind |-> r], NoPlan),
@@ -724,7 +731,7 @@ DoHtlc ==
 
 \* ten minutes pass: every armed timer fires (the harness step "tick" advances the clock and fires what became due)
 DoTimer ==
-  /\ Idle /\ nd.up /\ o.now < 20
+  /\ Idle /\ Settled /\ nd.up /\ o.now < 20
   /\ \E plan \in Plans(nd) :
        /\ PlanOK(plan)
        /\ LET ts == SetToSeq(nd.timers)
@@ -733,16 +740,37 @@ DoTimer ==
               x == Ctx([nd EXCEPT !.timers = {}, !.q = @ \o cbs], plan)
           IN Commit(x, <<DriveEv("tick", [m |-> 10], plan)>> \o fires, "tick", plan, StepRec("tick", [m |-> 10], plan))
 
+VerStr(v) == IF v = "current" THEN "v0.2" ELSE IF v = "old" THEN "v0.1" ELSE "none"
 DoRestart ==
-  /\ Idle /\ nd.nrestarts < MAXCRASHES + 1
+  /\ Idle /\ Settled /\ nd.nrestarts < MAXCRASHES + 1
   /\ \E plan \in Plans(nd) :
-       /\ PlanOK(plan) /\ plan.faults = <<>>
-       /\ LET n0 == [Down(nd) EXCEPT !.up = TRUE, !.epoch = @ + 1, !.nrestarts = @ + 1, !.recover = TRUE]
-              ds == SetToSeq(DOMAIN nd.disk)
+       /\ PlanOK(plan)
+       /\ LET active == \E s \in DOMAIN nd.disk : nd.disk[s].cur \notin Terminal
+              ok == nd.ver = "current" \/ ~active          \* SafeUpgrade: the stored version changes only when no swap is active
+              after == IF ok THEN "current" ELSE nd.ver
+              n0 == [Down(nd) EXCEPT !.up = ok, !.epoch = @ + 1, !.nrestarts = @ + 1, !.recover = ok, !.ver = after]
+              ds == IF ok THEN SetToSeq(DOMAIN nd.disk) ELSE <<>>
               rel == [i \in 1..Len(ds) |-> [ev |-> "reload", sid |-> ds[i], digest |-> nd.disk[ds[i]], cur |-> nd.disk[ds[i]].cur, finished |-> nd.disk[ds[i]].cur \in Terminal]]
               pre == <<DriveEv("restart", <<>>, plan)>> \o (IF nd.up THEN <<[ev |-> "stop", why |-> "shutdown"]>> ELSE <<>>)
-                     \o <<[ev |-> "start", epoch |-> nd.epoch + 1, recover |-> TRUE], [ev |-> "upgrade", ok |-> TRUE, before |-> "v", after |-> "v", current |-> "v"]>> \o rel
+                     \o <<[ev |-> "start", epoch |-> nd.epoch + 1, recover |-> TRUE],
+                          [ev |-> "upgrade", ok |-> ok, before |-> VerStr(nd.ver), after |-> VerStr(after), current |-> VerStr("current")]>>
+                     \o (IF ok THEN rel ELSE <<[ev |-> "stop", why |-> "upgrade refused"]>>)
           IN Commit(Ctx(n0, plan), pre, "restart", plan, StepRec("restart", <<>>, plan))
+
+\* The daemons register the message handler (Start) before RecoverSwaps: messages can arrive in between.
+DoStart ==
+  /\ Idle /\ ADVERSARY /\ nd.nrestarts < MAXCRASHES + 1 /\ nd.ver = "current" /\ ~nd.unrecovered
+  /\ LET n0 == [Down(nd) EXCEPT !.up = TRUE, !.epoch = @ + 1, !.nrestarts = @ + 1, !.unrecovered = TRUE]
+     IN Commit(Ctx(n0, NoPlan), <<DriveEv("start", <<>>, NoPlan)>> \o (IF nd.up THEN <<[ev |-> "stop", why |-> "shutdown"]>> ELSE <<>>) \o <<[ev |-> "start", epoch |-> nd.epoch + 1, recover |-> FALSE]>>, "start", NoPlan, StepRec("start", <<>>, NoPlan))
+DoRecover ==
+  /\ Idle /\ nd.up /\ nd.unrecovered
+  /\ \E plan \in Plans(nd) :
+       /\ PlanOK(plan)
+       /\ LET ds == SetToSeq(DOMAIN nd.disk)
+              rel == [i \in 1..Len(ds) |-> [ev |-> "reload", sid |-> ds[i], digest |-> nd.disk[ds[i]], cur |-> nd.disk[ds[i]].cur, finished |-> nd.disk[ds[i]].cur \in Terminal]]
+              n0 == [nd EXCEPT !.recover = TRUE, !.unrecovered = FALSE]
+          IN Commit(Ctx(n0, plan), <<DriveEv("recover", <<>>, plan), [ev |-> "upgrade", ok |-> TRUE, before |-> VerStr("current"), after |-> VerStr("current"), current |-> VerStr("current")]>> \o rel,
+                    "recover", plan, StepRec("recover", <<>>, plan))
 
 Snapshot(n) ==
   [ev |-> "quiesce", now |-> 0, up |-> n.up, suspicious_peer |-> n.suspfile,
@@ -765,8 +793,8 @@ Drain ==
         /\ nd' = [x2.nd EXCEPT !.phase = "idle", !.poll = FALSE, !.recover = FALSE, !.occ = <<>>, !.plan = NoPlan, !.res = "ok", !.q = <<>>]
         /\ UNCHANGED <<sched, cf>>
 
-Init == /\ cf \in CONFIGS /\ o = ApplyEv(ObsInit, [ev |-> "reset", cfg |-> Cfg]) /\ viol = {} /\ nd = NdInit /\ sched = <<>>
-Next == DoLocal \/ DoMsg \/ DoBlock \/ DoPay \/ DoHtlc \/ DoTimer \/ DoRestart \/ Drain
+Init == /\ cf \in CONFIGS /\ o = ApplyEv(ObsInit, [ev |-> "reset", cfg |-> Cfg]) /\ viol = {} /\ nd = [NdInit EXCEPT !.ver = cf.ver] /\ sched = <<>>
+Next == DoLocal \/ DoMsg \/ DoBlock \/ DoPay \/ DoHtlc \/ DoTimer \/ DoRestart \/ DoStart \/ DoRecover \/ Drain
 Spec == Init /\ [][Next]_vars
 \* the view hides counters and histories that do not influence future behaviour (BFS reaches each view state first by a shortest path)
 NdView == [nd EXCEPT !.nsteps = 0, !.sentn = <<>>, !.keyn = 0, !.ptx = 0, !.epoch = 0, !.nrestarts = IF @ > MAXCRASHES THEN 1 ELSE 0, !.a = ""]
